@@ -11,6 +11,7 @@ The rule decides that the kind is *written with* the host, not that the written 
 right (value-level: IPv4/IPv6 arithmetic is not decided).
 """
 from lib import ex as X
+from lib import tables as T
 from lib.typestate import Monitor, Engine
 from lib.report import Ctx
 from rules import common as C
@@ -151,6 +152,7 @@ def entries(fx):
 
 def run(ctx, tier):
     ctx.rule("H1", "the host kind is stored whenever the host is stored, on every path of every public entry")
+    ctx.rule("H5", "IPv4 number parser: radix dispatch and digit validation agree with the Standard's IPv4 number parser")
     ctx.rule("H4", "IPv6 serializer: the recorded longest zero run is replaced only by a strictly longer one (first longest wins)")
     cfgs = C.configs_for(tier, thorough=["release", "ssse3", "avx512", "devchecks", "amalgamated", "nopattern"])
     fxs = C.load_configs(ctx, cfgs)
@@ -159,7 +161,115 @@ def run(ctx, tier):
         check(ctx, fxs[name])
 
 
+def _subst_pk(e, pname):
+    """replace p[K] / *p (K constant) by pseudo byte variables named '@K'"""
+    if isinstance(e, list):
+        return [_subst_pk(x, pname) for x in e]
+    if not isinstance(e, dict):
+        return e
+    e0 = e
+    if e.get("k") == "index":
+        b = X.strip(e["base"])
+        kx = X.const_val(e["idx"])
+        if isinstance(b, dict) and b.get("k") == "ref" and b.get("name") == pname and kx is not None:
+            return {"k": "ref", "kind": "local", "id": "@%d" % kx, "name": "@%d" % kx, "ty": "char"}
+    if e.get("k") == "un" and e.get("op") == "*":
+        b = X.strip(e["e"])
+        if isinstance(b, dict) and b.get("k") == "ref" and b.get("name") == pname:
+            return {"k": "ref", "kind": "local", "id": "@0", "name": "@0", "ty": "char"}
+    return {k: _subst_pk(v, pname) if isinstance(v, (dict, list)) else v for k, v in e0.items()}
+
+
+def _conj(e):
+    e0 = X.strip(e)
+    if isinstance(e0, dict) and e0.get("k") == "bin" and e0.get("op") == "&&":
+        return _conj(e0["l"]) + _conj(e0["r"])
+    return [e]
+
+
+def check_ipv4_number(ctx, fx):
+    """H5.  WHATWG IPv4 number parser: "0x"/"0X" prefix -> hexadecimal; otherwise a leading "0" followed by at least one
+    more character -> octal (a digit 8 or 9 then makes the number invalid); otherwise decimal.  Decided as byte-set
+    algebra on parse_ipv4_number: the set of second bytes that select each radix, and the set of bytes each radix's
+    validation loop lets through."""
+    from lib.byteset import ByteSem, ByteLoop, byte_identity
+    f = fx.fn1("ada::detail::parse_ipv4_number")
+    sem = ByteSem(fx)
+    where = f["loc"].replace("/repo/", "")
+    DIG = frozenset(range(48, 58))
+    # ---- dispatch: if-statements whose whole condition constrains p[0] and p[1]
+    disp = []
+    for b in f["blocks"]:
+        t = b["term"]
+        if t.get("kind") != "IfStmt" or t.get("cond") is None:
+            continue
+        c = _subst_pk(t["cond"], "p")
+        cj = _conj(c)
+        on1 = [x for x in cj if any(n.get("k") == "ref" and n.get("id") == "@1" for n in X.walk(x))]
+        on0 = [x for x in cj if any(n.get("k") == "ref" and n.get("id") == "@0" for n in X.walk(x))]
+        if not on1:
+            continue
+        env1 = {"@1": byte_identity("char")}
+        s1 = frozenset(range(256))
+        for x in on1:
+            s1 &= sem.set_of(x, env1)
+        s0 = frozenset(range(256))
+        for x in on0:
+            s0 &= sem.set_of(x, {"@0": byte_identity("char")})
+        disp.append((int(t["loc"].split(":")[-2]), s0, s1, t))
+    disp.sort(key=lambda d: d[0])
+    if len(disp) != 2:
+        ctx.broken("H5: expected two prefix tests on p[0], p[1] in parse_ipv4_number (hexadecimal, octal), found %d" % len(disp))
+    (l1, h0, h1, ht), (l2, o0, o1, ot) = disp
+    ctx.check("H5", "hexadecimal prefix is '0' followed by 'x' or 'X'", h0 == frozenset([48]) and h1 == frozenset([88, 120]),
+              "{0} {x X}", "the first prefix test selects first byte %s, second byte %s" % (T.fmtset(h0), T.fmtset(h1)),
+              where=(ht.get("loc") or where).replace("/repo/", ""))
+    # ---- validation loops: bytes that let the loop continue
+    loops_ = []
+    bl = ByteLoop(fx, f, sem)
+    for b in f["blocks"]:
+        for i, st in enumerate(b["stmts"]):
+            if st["k"] != "decl":
+                continue
+            for v in st["vars"]:
+                init = v.get("init")
+                if init is None or not any(n.get("k") == "un" and n.get("op") == "*" for n in X.walk(init)):
+                    continue
+                if v["name"] == "v":
+                    continue
+                ini = _subst_pk(init, "p")
+                vals = sem.vals(ini, {"@0": byte_identity("char")})
+                fake = dict(v)
+                try:
+                    out = bl.classify(b["id"], i, fake, seed={v["id"]: vals})
+                except Exception:
+                    continue
+                acc = frozenset(x for x in range(256) if any(o[0] == "next" for o in out.get(x, ())))
+                loops_.append((int(st["loc"].split(":")[-2]), acc, st))
+    loops_.sort(key=lambda d: d[0])
+    if len(loops_) != 3:
+        ctx.broken("H5: expected three digit-validation loops in parse_ipv4_number (hexadecimal, octal, decimal), found %d" % len(loops_))
+    (lh, ah, sh), (lo, ao, so), (ld, ad, sd) = loops_
+    HEX = frozenset(list(range(48, 58)) + list(range(65, 71)) + list(range(97, 103)))
+    for nm, got, want, st in (("hexadecimal", ah, HEX, sh), ("octal", ao, frozenset(range(48, 56)), so), ("decimal", ad, DIG, sd)):
+        ctx.check("H5", "%s digits accepted by its loop" % nm, got == want, T.fmtset(got),
+                  "the %s loop lets %s through; the Standard's digits for that radix are %s" % (nm, T.fmtset(got), T.fmtset(want)),
+                  where=(st.get("loc") or where).replace("/repo/", ""))
+    # ---- a leading 0 followed by any decimal digit must be routed to the octal validator (where 8 and 9 are rejected)
+    miss = (ad - o1) if o0 == frozenset([48]) else ad
+    ctx.check("H5", "a number that starts with '0' and has a second digit is never parsed as decimal",
+              o0 == frozenset([48]) and not miss, "octal is selected by '0' followed by %s" % T.fmtset(o1),
+              "the octal test selects first byte %s and second byte %s: a number starting with '0' followed by %s falls through to "
+              "the decimal branch, which accepts it — the Standard treats it as octal (and fails on 8 and 9)"
+              % (T.fmtset(o0), T.fmtset(o1), T.fmtset(miss)), where=(ot.get("loc") or where).replace("/repo/", ""))
+    # ---- and nothing but digits may be routed to octal by the second byte, otherwise "0." / "0a" change meaning
+    ctx.check("H5", "only a digit after the leading '0' selects octal", o1 <= DIG, T.fmtset(o1),
+              "the octal test also fires for second bytes %s" % T.fmtset(o1 - DIG), where=(ot.get("loc") or where).replace("/repo/", ""))
+    ctx.floor("H5", 6, 6, "radix dispatch / digit-set obligations")
+
+
 def check(ctx, fx):
+    check_ipv4_number(ctx, fx)
     ents = entries(fx)
     ctx.floor("H1", len(ents), 30, "public entries analysed")
     total_hosts = set()
